@@ -4,7 +4,7 @@ C07 — property theorems.
 Statement of the property (full strength):
     ∀ D T (h : List OpO) (p : Probe), runProbeNew D T (runO D h s₀) p = freshResult D T p
     ∀ D T h p e, (runO D h s₀).execs[e]? has backend p.b → runProbeOn D T (runO D h s₀) p e = freshResult D T p
-It is FALSE of the code as it stands (twelve `leak_counterexample_*` theorems below, each replayed on
+It is FALSE of the code as it stands (ten `leak_counterexample_*` theorems below, each replayed on
 the real code and listed in known_findings.jsonl).  What is proved is the statement for every
 history all of whose operations are benign for the probe (`benignNew`, `benignOn`: decidable, the
 excluded clauses are exactly the counterexample classes), for every translator function `T` and
@@ -37,11 +37,11 @@ behind (`cleanNew`: decidable), translating it on a newly created executor gives
 first query of a fresh process gives. -/
 theorem clean_new_indep (D : Defaults) (T : Translator) (p : Probe) (s : HState)
     (hc : cleanNew D p s = true) : runProbeNew D T s p = freshResult D T p := by
-  obtain ⟨hr, hn, hx⟩ := (cleanNew_iff D p s).1 hc
-  rw [regCleanNew_iff] at hr; rw [nsClean_iff] at hn; rw [xmdClean_iff] at hx
+  obtain ⟨hr, hn⟩ := (cleanNew_iff D p s).1 hc
+  rw [regCleanNew_iff] at hr; rw [nsClean_iff] at hn
   unfold freshResult runProbeNew
   apply probe_congr D T p (newExec D s p.b) (newExec D s₀ p.b) s.execs.length s₀.execs.length
-    ⟨p.b, [], [], true, [], []⟩ ⟨p.b, [], [], true, [], []⟩
+    ⟨p.b, [], [], [], []⟩ ⟨p.b, [], [], [], []⟩
   · simp [newExec]
   · simp [newExec, s₀]
   · rfl
@@ -57,11 +57,7 @@ theorem clean_new_indep (D : Defaults) (T : Translator) (p : Probe) (s : HState)
   · intro t ht
     show s.ns.restrict t = s₀.ns.restrict t
     rw [hn t ht]; rfl
-  · intro kind hk hnk
-    show alookup s.sharedXmd kind = alookup s₀.sharedXmd kind
-    rcases hx kind hk with h | h
-    · exact absurd h hnk
-    · rw [h]; rfl
+  · intro kind _ _; rfl
   · rfl
 
 theorem cleanOn_iff (D : Defaults) (p : Probe) (s : HState) (e : Nat) :
@@ -78,7 +74,7 @@ theorem clean_on_indep (D : Defaults) (T : Translator) (p : Probe) (s : HState) 
   obtain ⟨ex, he, hb, hr, hn, hx, hj, hf⟩ := (cleanOn_iff D p s e).1 hc
   rw [regCleanOn_iff] at hr; rw [nsClean_iff] at hn; rw [xmdClean_iff] at hx
   unfold freshResult runProbeNew
-  apply probe_congr D T p s (newExec D s₀ p.b) e s₀.execs.length ex ⟨p.b, [], [], true, [], []⟩ he
+  apply probe_congr D T p s (newExec D s₀ p.b) e s₀.execs.length ex ⟨p.b, [], [], [], []⟩ he
   · simp [newExec, s₀]
   · exact hb
   · exact hj
@@ -98,14 +94,14 @@ theorem clean_on_indep (D : Defaults) (T : Translator) (p : Probe) (s : HState) 
 /-- **Benign operations keep the state clean (new-executor probe).** -/
 theorem benign_preserves_new (D : Defaults) (p : Probe) (s : HState) (o : OpO)
     (hc : cleanNew D p s = true) (hb : benignNew D p s o = true) : cleanNew D p (stepO D s o) = true := by
-  obtain ⟨hr, hn, hx⟩ := (cleanNew_iff D p s).1 hc
-  rw [regCleanNew_iff] at hr; rw [nsClean_iff] at hn; rw [xmdClean_iff] at hx
-  rw [cleanNew_iff, regCleanNew_iff, nsClean_iff, xmdClean_iff]
+  obtain ⟨hr, hn⟩ := (cleanNew_iff D p s).1 hc
+  rw [regCleanNew_iff] at hr; rw [nsClean_iff] at hn
+  rw [cleanNew_iff, regCleanNew_iff, nsClean_iff]
   cases o with
   | new b' =>
     have hb' : b' = p.b ∨ ∀ k ∈ p.q.keys, k ∉ dkeys D b' := by
       simpa [benignNew, List.all_eq_true] using hb
-    refine ⟨?_, hn, hx⟩
+    refine ⟨?_, hn⟩
     intro k hk
     by_cases hd : k ∈ dkeys D p.b
     · exact Or.inl hd
@@ -121,30 +117,16 @@ theorem benign_preserves_new (D : Defaults) (p : Probe) (s : HState) (o : OpO)
       · exact h
   | addXmd e x =>
     cases he : s.execs[e]? with
-    | none => simp only [stepO, addXmd, he]; exact ⟨hr, hn, hx⟩
+    | none => simp only [stepO, addXmd, he]; exact ⟨hr, hn⟩
     | some ex =>
-      by_cases hs : ex.xmdShared = true
-      · have hb' : ∀ k ∈ mdKinds p.md, k ∉ akeys x := by
-          simpa [benignNew, he, hs, List.all_eq_true] using hb
-        have e1 : stepO D s (.addXmd e x) = { s with sharedXmd := ainsertAll s.sharedXmd x } := by
-          simp only [stepO, addXmd, he, hs, if_true]
-        rw [e1]
-        refine ⟨hr, hn, ?_⟩
-        intro k hk
-        rcases hx k hk with h | h
-        · exact Or.inl h
-        · right
-          show alookup (ainsertAll s.sharedXmd x) k = none
-          rw [alookup_ainsertAll_of_not_mem x _ k (hb' k hk)]; exact h
-      · have hs' : ex.xmdShared = false := by simpa using hs
-        have e1 : stepO D s (.addXmd e x) = { s with execs := s.execs.set e { ex with xmdOwn := ainsertAll ex.xmdOwn x } } := by
-          simp only [stepO, addXmd, he, hs', Bool.false_eq_true, if_false]
-        rw [e1]; exact ⟨hr, hn, hx⟩
+      have e1 : stepO D s (.addXmd e x) = { s with execs := s.execs.set e { ex with xmd := ainsertAll ex.xmd x } } := by
+        simp only [stepO, addXmd, he]
+      rw [e1]; exact ⟨hr, hn⟩
   | translate e q md r =>
     cases he : s.execs[e]? with
-    | none => rw [stepO_translate_noExec D s e q md r he]; exact ⟨hr, hn, hx⟩
+    | none => rw [stepO_translate_noExec D s e q md r he]; exact ⟨hr, hn⟩
     | some ex =>
-      obtain ⟨fx, fn, fr, _⟩ := stepO_translate_fields D s e q md r ex he
+      obtain ⟨fn, fr, _⟩ := stepO_translate_fields D s e q md r ex he
       have hb' : (∀ t ∈ enumTops md, t ∉ p.q.names.map some) ∧
           (if reachedStage s ex md r = some .done then
              (ex.backend = p.b ∨ ∀ k ∈ p.q.keys, k ∉ dkeys D ex.backend)
@@ -159,8 +141,8 @@ theorem benign_preserves_new (D : Defaults) (p : Probe) (s : HState) (o : OpO)
         · rename_i hd; simp only [hd, if_false]
           simpa [List.all_eq_true] using h2
       obtain ⟨hen, hreg⟩ := hb'
-      rw [fx, fn, fr]
-      refine ⟨?_, ?_, hx⟩
+      rw [fn, fr]
+      refine ⟨?_, ?_⟩
       · intro k hk
         by_cases hd : k ∈ dkeys D p.b
         · exact Or.inl hd
@@ -216,52 +198,33 @@ theorem benign_preserves_on (D : Defaults) (p : Probe) (e₀ : Nat) (s : HState)
       have e1 : stepO D s (.addXmd e x) = s := by simp only [stepO, addXmd, he]
       rw [e1]; exact ⟨ex₀, he₀, hbk, (regCleanOn_iff D p s).2 hr, (nsClean_iff p s).2 hn, (xmdClean_iff p _).2 hx, hj, hf⟩
     | some ex =>
-      by_cases hs : ex.xmdShared = true
-      · have hb' : ∀ k ∈ mdKinds p.md, k ∉ akeys x := by
-          simpa [benignOn, he, hs, List.all_eq_true] using hb2
-        have e1 : stepO D s (.addXmd e x) = { s with sharedXmd := ainsertAll s.sharedXmd x } := by
-          simp only [stepO, addXmd, he, hs, if_true]
-        rw [e1]
-        refine ⟨ex₀, he₀, hbk, (regCleanOn_iff D p _).2 hr, (nsClean_iff p _).2 hn, ?_, hj, hf⟩
+      have e1 : stepO D s (.addXmd e x) = { s with execs := s.execs.set e { ex with xmd := ainsertAll ex.xmd x } } := by
+        simp only [stepO, addXmd, he]
+      rw [e1]
+      by_cases hee : e = e₀
+      · subst hee
+        have hex : ex = ex₀ := by rw [he] at he₀; exact Option.some.inj he₀
+        subst hex
+        have hb' : ∀ k ∈ mdKinds p.md, k ∉ akeys x := by
+          simpa [benignOn, List.all_eq_true] using hb2
+        refine ⟨_, getElem?_set_self' _ _ _ _ he, hbk, (regCleanOn_iff D p _).2 hr, (nsClean_iff p _).2 hn, ?_, hj, hf⟩
         rw [xmdClean_iff]
         intro k hk
         rcases hx k hk with h | h
         · exact Or.inl h
         · right
-          by_cases hs0 : ex₀.xmdShared = true
-          · simp only [effXmd, hs0, if_true] at h ⊢
-            rw [alookup_ainsertAll_of_not_mem x _ k (hb' k hk)]; exact h
-          · have hs0' : ex₀.xmdShared = false := by simpa using hs0
-            simp only [effXmd, hs0', Bool.false_eq_true, if_false] at h ⊢
-            exact h
-      · have hs' : ex.xmdShared = false := by simpa using hs
-        have e1 : stepO D s (.addXmd e x) = { s with execs := s.execs.set e { ex with xmdOwn := ainsertAll ex.xmdOwn x } } := by
-          simp only [stepO, addXmd, he, hs', Bool.false_eq_true, if_false]
-        rw [e1]
-        by_cases hee : e = e₀
-        · subst hee
-          have hex : ex = ex₀ := by rw [he] at he₀; exact Option.some.inj he₀
-          subst hex
-          have hb' : ∀ k ∈ mdKinds p.md, k ∉ akeys x := by
-            simpa [benignOn, he, hs', List.all_eq_true] using hb2
-          refine ⟨_, getElem?_set_self' _ _ _ _ he, hbk, (regCleanOn_iff D p _).2 hr, (nsClean_iff p _).2 hn, ?_, hj, hf⟩
-          rw [xmdClean_iff]
-          intro k hk
-          rcases hx k hk with h | h
-          · exact Or.inl h
-          · right
-            simp only [effXmd, hs', Bool.false_eq_true, if_false] at h ⊢
-            rw [alookup_ainsertAll_of_not_mem x _ k (hb' k hk)]; exact h
-        · refine ⟨ex₀, ?_, hbk, (regCleanOn_iff D p _).2 hr, (nsClean_iff p _).2 hn, (xmdClean_iff p _).2 hx, hj, hf⟩
-          show (s.execs.set e _)[e₀]? = some ex₀
-          rw [getElem?_set_ne' _ _ _ _ hee]; exact he₀
+          simp only [effXmd] at h ⊢
+          rw [alookup_ainsertAll_of_not_mem x _ k (hb' k hk)]; exact h
+      · refine ⟨ex₀, ?_, hbk, (regCleanOn_iff D p _).2 hr, (nsClean_iff p _).2 hn, (xmdClean_iff p _).2 hx, hj, hf⟩
+        show (s.execs.set e _)[e₀]? = some ex₀
+        rw [getElem?_set_ne' _ _ _ _ hee]; exact he₀
   | translate e q md r =>
     cases he : s.execs[e]? with
     | none =>
       rw [stepO_translate_noExec D s e q md r he]
       exact ⟨ex₀, he₀, hbk, (regCleanOn_iff D p s).2 hr, (nsClean_iff p s).2 hn, (xmdClean_iff p _).2 hx, hj, hf⟩
     | some ex =>
-      obtain ⟨fx, fn, fr, fe⟩ := stepO_translate_fields D s e q md r ex he
+      obtain ⟨fn, fr, fe⟩ := stepO_translate_fields D s e q md r ex he
       have hb' : (∀ t ∈ enumTops md, t ∉ p.q.names.map some) ∧
           (if reachedStage s ex md r = some .done then
              (ex.backend = p.b ∨ ∀ k ∈ p.q.keys, k ∉ dkeys D ex.backend)
@@ -310,7 +273,7 @@ theorem benign_preserves_on (D : Defaults) (p : Probe) (e₀ : Nat) (s : HState)
       | none =>
         rw [hst] at fe
         refine ⟨ex₀, by rw [fe]; exact he₀, hbk, hreg', hns', ?_, hj, hf⟩
-        rw [effXmd_congr s _ ex₀ ex₀ fx rfl rfl]; exact (xmdClean_iff p _).2 hx
+        rw [effXmd_congr s _ ex₀ ex₀ rfl]; exact (xmdClean_iff p _).2 hx
       | some st =>
         rw [hst] at fe
         by_cases hee : e = e₀
@@ -330,8 +293,8 @@ theorem benign_preserves_on (D : Defaults) (p : Probe) (e₀ : Nat) (s : HState)
             by_cases hdn : st = .done
             · subst hdn
               right; simp [effXmd, execAfter, alookup]
-            · obtain ⟨x1, x2⟩ := execAfter_xmd ex st (specsOfRun s ex md) hdn
-              rw [effXmd_congr s _ ex _ fx x1 x2]
+            · have x2 := execAfter_xmd ex st (specsOfRun s ex md) hdn
+              rw [effXmd_congr s _ ex _ x2]
               exact hx k hk
           · rw [execAfter_job]
             cases st with
@@ -354,11 +317,11 @@ theorem benign_preserves_on (D : Defaults) (p : Probe) (e₀ : Nat) (s : HState)
                 · exact h' f h
         · refine ⟨ex₀, ?_, hbk, hreg', hns', ?_, hj, hf⟩
           · rw [fe, getElem?_set_ne' _ _ _ _ hee]; exact he₀
-          · rw [effXmd_congr s _ ex₀ ex₀ fx rfl rfl]; exact (xmdClean_iff p _).2 hx
+          · rw [effXmd_congr s _ ex₀ ex₀ rfl]; exact (xmdClean_iff p _).2 hx
 
 theorem s₀_cleanNew (D : Defaults) (p : Probe) : cleanNew D p s₀ = true := by
-  rw [cleanNew_iff, regCleanNew_iff, nsClean_iff, xmdClean_iff]
-  exact ⟨fun _ _ => Or.inr rfl, fun _ _ => rfl, fun _ _ => Or.inr rfl⟩
+  rw [cleanNew_iff, regCleanNew_iff, nsClean_iff]
+  exact ⟨fun _ _ => Or.inr rfl, fun _ _ => rfl⟩
 
 theorem benignRun_preserves_new (D : Defaults) (p : Probe) :
     ∀ (h : List OpO) (s : HState), cleanNew D p s = true → benignRunNew D p s h = true →
@@ -386,10 +349,11 @@ theorem history_indep_partial (D : Defaults) (T : Translator) (h : List OpO) (p 
 /-- creating the executor the probe will run on, in a clean state, gives a clean executor -/
 theorem cleanOn_of_new (D : Defaults) (p : Probe) (s : HState) (hc : cleanNew D p s = true) :
     cleanOn D p (newExec D s p.b) s.execs.length = true := by
-  obtain ⟨hr, hn, hx⟩ := (cleanNew_iff D p s).1 hc
+  obtain ⟨hr, hn⟩ := (cleanNew_iff D p s).1 hc
   rw [regCleanNew_iff] at hr; rw [nsClean_iff] at hn
   rw [cleanOn_iff]
-  refine ⟨⟨p.b, [], [], true, [], []⟩, by simp [newExec], rfl, ?_, (nsClean_iff p _).2 hn, hx, rfl, by simp⟩
+  refine ⟨⟨p.b, [], [], [], []⟩, by simp [newExec], rfl, ?_, (nsClean_iff p _).2 hn,
+    (xmdClean_iff p _).2 (fun _ _ => Or.inr rfl), rfl, by simp⟩
   rw [regCleanOn_iff]
   intro k hk
   show alookup (ainsertAll s.reg (D p.b)) k = alookup (defaultsReg D p.b) k
@@ -489,16 +453,15 @@ theorem stage_of_ok (r : TRes) (w : Bool) (f : String) (h : outcomeOf r w = .ok 
 
 /-- **`reset()` after a successful translation.**  Whatever the state was before (any registry
 contents left by any history): after a translation on executor `e` that ended `ok`, the registry is
-exactly the backend's defaults, the executor has no job-script blocks, no inject blocks, its own
-empty extended-metadata dict; other executors and the shared default dict are untouched.  NOT
+exactly the backend's defaults, the executor has no job-script blocks, no inject blocks, an
+empty extended-metadata dict; other executors are untouched.  NOT
 restored: `_found_extended_md` (only grows) and the namespace/enum registry. -/
 theorem reset_restores (D : Defaults) (o : View → TRes) (s : HState) (e : Nat) (q : Query) (md : List MdItem)
     (ex : Exec) (f : String) (he : s.execs[e]? = some ex) (hok : (translateWith D o s e q md).2 = .ok f) :
     (translateWith D o s e q md).1.reg = defaultsReg D ex.backend ∧
     (translateWith D o s e q md).1.execs[e]? =
-      some { ex with job := [], inject := [], xmdShared := false, xmdOwn := [],
+      some { ex with job := [], inject := [], xmd := [],
                      found := ex.found ++ xitemsOf (mdOf s ex md).1.specs } ∧
-    (translateWith D o s e q md).1.sharedXmd = s.sharedXmd ∧
     (translateWith D o s e q md).1.ns = (mdOf s ex md).1.ns ∧
     ∀ e', e ≠ e' → (translateWith D o s e q md).1.execs[e']? = s.execs[e']? := by
   cases hm : (mdOf s ex md).2 with
@@ -506,7 +469,7 @@ theorem reset_restores (D : Defaults) (o : View → TRes) (s : HState) (e : Nat)
   | none =>
     rw [translateWith_run D o s e q md ex he hm] at hok ⊢
     have hst := stage_of_ok _ _ f hok
-    refine ⟨by simp only [hst, if_true], ?_, rfl, rfl, ?_⟩
+    refine ⟨by simp only [hst, if_true], ?_, rfl, ?_⟩
     · show (s.execs.set e _)[e]? = _
       rw [getElem?_set_self' _ _ _ _ he, hst]; rfl
     · intro e' hne; exact getElem?_set_ne' _ _ _ _ hne
@@ -522,7 +485,7 @@ theorem reset_restores_result (D : Defaults) (T : Translator) (o : View → TRes
     (hns : nsClean p (translateWith D o s e q md).1 = true)
     (hfound : ∀ x ∈ ex.found ++ xitemsOf (mdOf s ex md).1.specs, x.1 ∉ akeys p.xadd) :
     runProbeOn D T (translateWith D o s e q md).1 p e = freshResult D T p := by
-  obtain ⟨hr, hx, _, _, _⟩ := reset_restores D o s e q md ex f he hok
+  obtain ⟨hr, hx, _, _⟩ := reset_restores D o s e q md ex f he hok
   apply clean_on_indep
   rw [cleanOn_iff]
   refine ⟨_, hx, hb, ?_, hns, ?_, rfl, hfound⟩
@@ -531,22 +494,22 @@ theorem reset_restores_result (D : Defaults) (T : Translator) (o : View → TRes
 
 /-- **One success heals the registry (partial).**  Take ANY state `s` — reached by any history
 whatsoever, with any leaked method types — in which no enum has been defined below a name the
-probe resolves and the shared default dict holds no kind the probe's metadata uses.  After one
+probe resolves.  After one
 recorded translation that reaches `reset()` on an executor of the probe's backend (and defines no
 such enum itself), every benign continuation leaves the probe's result equal to the fresh one. -/
 theorem success_heals_partial (D : Defaults) (T : Translator) (p : Probe) (s : HState) (e : Nat) (q : Query)
     (md : List MdItem) (r : TRes) (ex : Exec) (h₂ : List OpO)
     (he : s.execs[e]? = some ex) (hbk : ex.backend = p.b) (hdone : reachedStage s ex md r = some .done)
     (hen : ∀ t ∈ enumTops md, t ∉ p.q.names.map some)
-    (hn : nsClean p s = true) (hx : xmdClean p s.sharedXmd = true)
+    (hn : nsClean p s = true)
     (hb : benignRunNew D p (stepO D s (.translate e q md r)) h₂ = true) :
     runProbeNew D T (runO D (.translate e q md r :: h₂) s) p = freshResult D T p := by
   apply clean_new_indep
   apply benignRun_preserves_new D p h₂ _ _ hb
-  obtain ⟨fx, fn, fr, _⟩ := stepO_translate_fields D s e q md r ex he
-  rw [cleanNew_iff, regCleanNew_iff, nsClean_iff, fx, fn, fr]
+  obtain ⟨fn, fr, _⟩ := stepO_translate_fields D s e q md r ex he
+  rw [cleanNew_iff, regCleanNew_iff, nsClean_iff, fn, fr]
   rw [nsClean_iff] at hn
-  refine ⟨?_, ?_, hx⟩
+  refine ⟨?_, ?_⟩
   · intro k hk
     by_cases hd : k ∈ dkeys D p.b
     · exact Or.inl hd
@@ -642,12 +605,41 @@ theorem leak_counterexample_cross_backend_new :
     ∃ D T h p, ¬ HistoryIndependentNew D T h p :=
   ⟨D₀, Tkey ("reco::Muon", "globalTrack"), crossBackendNew.1, crossBackendNew.2, by unfold HistoryIndependentNew; decide⟩
 
+theorem addXmd_reg_ns (s : HState) (e : Nat) (x : Xmd) :
+    (addXmd s e x).reg = s.reg ∧ (addXmd s e x).ns = s.ns ∧ (addXmd s e x).execs.length = s.execs.length := by
+  unfold addXmd
+  cases s.execs[e]? <;> simp
+
+/-- (d, REPAIRED by fix cfca57a) **`add_extended_md` is invisible to every executor created
+later.**  Whatever the state, whichever executor (reset or never reset) and whatever kinds are
+registered: a probe translated on a NEW executor afterwards gives exactly what it gives without the
+registration — for every translator.  (Before the fix the registration went into the constructor's
+shared default dict: `leak_counterexample_shared_default`, now false.) -/
+theorem addXmd_invisible_to_new_executors (D : Defaults) (T : Translator) (s : HState) (e : Nat) (x : Xmd) (p : Probe) :
+    runProbeNew D T (addXmd s e x) p = runProbeNew D T s p := by
+  obtain ⟨hreg, hns, hlen⟩ := addXmd_reg_ns s e x
+  unfold runProbeNew
+  apply probe_congr D T p (newExec D (addXmd s e x) p.b) (newExec D s p.b) (addXmd s e x).execs.length s.execs.length
+    ⟨p.b, [], [], [], []⟩ ⟨p.b, [], [], [], []⟩
+  · simp [newExec]
+  · simp [newExec]
+  · rfl
+  · rfl
+  · intro k _
+    show alookup (ainsertAll (addXmd s e x).reg (D p.b)) k = alookup (ainsertAll s.reg (D p.b)) k
+    rw [hreg]
+  · intro t _
+    show (addXmd s e x).ns.restrict t = s.ns.restrict t
+    rw [hns]
+  · intro _ _ _; rfl
+  · rfl
+
 open Witness in
-/-- (d) `add_extended_md` on a never-reset executor mutates the constructor's default `{}`: every
-executor created afterwards accepts that metadata kind (fresh process: `ValueError`). -/
-theorem leak_counterexample_shared_default :
-    ∃ D T h p, ¬ HistoryIndependentNew D T h p :=
-  ⟨D₀, Tconst, sharedDefault.1, sharedDefault.2, by unfold HistoryIndependentNew; decide⟩
+/-- …in particular the history of the former finding `sharedDefault` (an `add_extended_md` of kind
+`docker` on a never-reset executor, then a probe with `docker` metadata on a new executor) now
+satisfies the property: the probe is refused exactly as in a fresh process. -/
+theorem shared_default_repaired (T : Translator) : HistoryIndependentNew D₀ T sharedDefault.1 sharedDefault.2 :=
+  history_indep_partial D₀ T sharedDefault.1 sharedDefault.2 (by decide)
 
 open Witness in
 /-- (e) `_found_extended_md` is never reset: the executor reports the previous query's item. -/
@@ -671,38 +663,30 @@ theorem leak_counterexample_extended_md :
 
 /-! ### the caller's AST object translated again -/
 
-/-- without metadata a re-used object is the query itself -/
-theorem reuseProbe_of_no_md (p : Probe) (hmd : p.md = []) : reuseProbe p = p := by
-  cases p; simp only [reuseProbe] at *; simp [hmd]
-
-/-- **Translating the same AST object again (existing executor, partial).**  FULL STATEMENT (false,
-`leak_counterexample_reused_ast`): `runProbeOn D T (runO D h s₀) (reuseProbe p) e = freshResult D T p`
-for every probe.  PROVED: for a query that carries no `MetaData`, handing the object that earlier
-operations of the history already translated (they are ordinary `.translate _ p.q [] _` entries of
-`h`, successful or failed, on this or on other executors) to the executor `e` gives exactly what a
-fresh process gives for the query, under the same hypotheses as `history_indep_on_partial`. -/
+/-- **Translating the same AST object again (existing executor, partial).**  Handing an AST object
+that earlier operations of the history already translated — as it is, or as a sub-tree of other
+queries derived from it; they are ordinary `.translate` entries of `h`, successful or failed, on
+this or on other executors — to the executor `e` gives exactly what a fresh process gives for the
+query, WITH its metadata, under the same hypotheses as `history_indep_on_partial` (`reuseProbe` is
+the identity since fix 1c4553a; the hypothesis `p.md = []` of the earlier version is gone). -/
 theorem retranslation_indep_on_partial (D : Defaults) (T : Translator) (h : List OpO) (p : Probe) (e : Nat)
-    (hmd : p.md = []) (hb : benignRunOn D p e s₀ h = true) (he : e < (runO D h s₀).execs.length) :
-    runProbeOn D T (runO D h s₀) (reuseProbe p) e = freshResult D T p := by
-  rw [reuseProbe_of_no_md p hmd]
-  exact history_indep_on_partial D T h p e hb he
+    (hb : benignRunOn D p e s₀ h = true) (he : e < (runO D h s₀).execs.length) :
+    runProbeOn D T (runO D h s₀) (reuseProbe p) e = freshResult D T p :=
+  history_indep_on_partial D T h p e hb he
 
 /-- **…and on a new executor (partial).** -/
 theorem retranslation_indep_new_partial (D : Defaults) (T : Translator) (h : List OpO) (p : Probe)
-    (hmd : p.md = []) (hb : benignRunNew D p s₀ h = true) :
-    runProbeNew D T (runO D h s₀) (reuseProbe p) = freshResult D T p := by
-  rw [reuseProbe_of_no_md p hmd]
-  exact history_indep_partial D T h p hb
+    (hb : benignRunNew D p s₀ h = true) :
+    runProbeNew D T (runO D h s₀) (reuseProbe p) = freshResult D T p :=
+  history_indep_partial D T h p hb
 
 open Witness in
-/-- (h) With `MetaData` the statement is false: the first translation removed the `MetaData` nodes
-from the caller's object, so the second translation of the object that declared
-`xAOD::Jet::pt → int` — after a history that is benign — no longer sees the declaration and differs
-from what a fresh process gives for that query (listed finding `reusedAst`, replayed on the real code). -/
-theorem leak_counterexample_reused_ast :
-    ∃ D T h p e, e < (runO D h s₀).execs.length ∧ benignRunOn D p e s₀ h = true ∧
-      runProbeOn D T (runO D h s₀) (reuseProbe p) e ≠ freshResult D T p :=
-  ⟨D₀, Tkey ("xAOD::Jet", "pt"), reusedAst.1.1, reusedAst.1.2, reusedAst.2, by decide, by decide, by decide⟩
+/-- (h, REPAIRED by fix 1c4553a) the history of the former finding `reusedAst` — the object that
+declares `xAOD::Jet::pt → int` translated once, then handed to the same executor again — now
+satisfies the property for every translator: the second translation sees the declaration again. -/
+theorem reused_ast_repaired (T : Translator) :
+    runProbeOn D₀ T (runO D₀ reusedAst.1.1 s₀) (reuseProbe reusedAst.1.2) reusedAst.2 = freshResult D₀ T reusedAst.1.2 :=
+  retranslation_indep_on_partial D₀ T reusedAst.1.1 reusedAst.1.2 reusedAst.2 (by decide) (by decide)
 
 /-- (g) The name counter does NOT "only rename": `unique_name` concatenates name and index, so the
 columns `x1` (drawn at counter 1, as in a fresh process) and `x` (drawn ten names later) get the SAME
@@ -717,10 +701,12 @@ theorem leak_counterexample_name_counter :
 /-! ### non-vacuity: the hypotheses are satisfiable by histories that really do something -/
 
 open Witness in
-/-- a metadata-free query whose object was translated twice before (once successfully, once on a
-second executor) satisfies the hypotheses of `retranslation_indep_on_partial` -/
-example : (⟨.atlas, [], jetPt, []⟩ : Probe).md = [] ∧ benignRunOn D₀ ⟨.atlas, [], jetPt, []⟩ 0 s₀
-    [.new .atlas, .translate 0 jetPt [] okRes, .new .atlas, .translate 1 jetPt [] okRes] = true := by decide
+/-- a query WITH metadata whose object was translated twice before (once successfully, once on a
+second executor), with an `add_extended_md` of the probe's own kind on that other (never-reset)
+executor in between, satisfies the hypotheses of `retranslation_indep_on_partial` -/
+example : benignRunOn D₀ ⟨.atlas, [], jetPt, [ptInt, dockerMd]⟩ 0 s₀
+    [.new .atlas, .translate 0 jetPt [ptInt] okRes, .new .atlas, .addXmd 1 [("docker", "[\"docker\", \"img\"]")],
+     .translate 1 jetPt [ptInt] okRes] = true := by decide
 
 open Witness in
 /-- a history with a declaration on the probe's own key that succeeds, a failure in
@@ -742,7 +728,7 @@ open Witness in
 /-- every witness of a counterexample is outside the hypotheses (the exclusions are not wider than needed
 for these) -/
 example : benignRunNew D₀ failedDecl.2 s₀ failedDecl.1 = false ∧ benignRunNew D₀ enumStays.2 s₀ enumStays.1 = false ∧
-    benignRunNew D₀ sharedDefault.2 s₀ sharedDefault.1 = false ∧ benignRunNew D₀ crossBackendNew.2 s₀ crossBackendNew.1 = false ∧
+    benignRunNew D₀ crossBackendNew.2 s₀ crossBackendNew.1 = false ∧
     benignRunOn D₀ crossBackendReset.1.2 0 s₀ crossBackendReset.1.1 = false ∧
     benignRunOn D₀ jobBlocksStay.1.2 0 s₀ jobBlocksStay.1.1 = false ∧
     benignRunOn D₀ foundStays.1.2 0 s₀ foundStays.1.1 = false := by decide
